@@ -137,6 +137,9 @@ HOSTILE_SCALARS: list[Any] = [
     "<b>&amp;</b>", "a,b,c", "a b  c", "\n", "\t x \n", "é", "日本語", "\ud800", "\x00", "'", '"',
     "Zm9v", "Zm9", "!!!!", "/w==", "gICA", "%41%zz%", "%ff", "&lt;p&gt;", "true", "false", "nil",
     "2020-01-01", "now", "today", "2020-13-45", "1577836800", "first", "size", "last",
+    # digit strings and timestamps beyond time_t / year 9999, markup that trips html.parser, malformed character references
+    "9" * 30, "9" * 400, "-" + "9" * 25, "253402300800", "-62135596801", 2**31, 253402300800, -62135596801, "1e400",
+    "<![x]>", "<!x", "<?php", "<!DOCTYPE", "a<![CDATA[x]]>b", "<a b='c", "</", "<!--", "&#xZZ;", "&#99999999999;", "<![if x]>", "<!ELEMENT",
 ]
 
 HOSTILE_COMPOUND: list[Any] = [
@@ -145,6 +148,8 @@ HOSTILE_COMPOUND: list[Any] = [
     {}, {"a": 1}, {"k": [1, 2]}, {"size": 5, "first": "f", "last": "l"}, {"a": {"b": {"c": 1}}},
     {"title": "x", "k": None}, range(0), range(1, 4), range(-2, 2), (1, 2), [[]], [{}], ["", " "],
     [3, 1, 2, 10, "10", "x"], ["a b", "c"], [{"k": {"n": 1}}, {"k": {"n": 0}}],
+    [float("inf"), float("-inf")], [float("inf"), float("nan")], ["inf", "-inf"], [1e308, 1e308, 1e308], [HUGE, 1.5], [{"k": float("inf")}, {"k": float("-inf")}],
+    ["9" * 400], [2**63, -(2**63)], [decimal.Decimal("Infinity"), decimal.Decimal("-Infinity")], [decimal.Decimal("NaN")],
 ]
 
 FRIENDLY_STR = ["", "a", "b", "ab", "abc", "foo bar", "Hello", "x y z", "10", "2", "-4", "3.5", " pad ", "a,b", "A-b"]
